@@ -1,15 +1,15 @@
 SPECIFICATION Spec
 CONSTANTS
-  Contexts <- CtxSingle
+  Contexts <- CtxCS
   Cases <- CasesU
   OGaps <- GapsSp
-  KGaps <- GapsAll
-  LGaps <- GapsAll0
+  KGaps <- GapsSp
+  LGaps <- GapsTight
   EGaps <- GapsAll0
-  AGaps <- GapsTight
+  AGaps <- GapsSp
   S1Gaps <- GapsNone
   S2Gaps <- GapsSp
-  Users <- UsersU
+  Users <- UsersEq
   Pieces <- PiecesM
   PwMax = 1
   Design = "fix"
